@@ -56,6 +56,7 @@ fn clock_of(v: &str) -> f64 {
     match v {
         "below" => 0.001,
         "min" => 0.01,
+        "one" => 1.0,
         "in" => 1.3,
         "max" => 100.0,
         _ => 5000.0,
@@ -210,7 +211,10 @@ fn maps(seed: u64) -> Maps {
 fn score<'a>(p: Performance<'a>, k: usize) -> Performance<'a> {
     match k {
         0 => p,
-        _ => p.accuracy(93.7).misses(1),
+        1 => p.accuracy(93.7).misses(1),
+        // a complete hit-result specification that does not fit the map (too few results, combo beyond the maximum):
+        // every entry point has to complete / clamp it the same way
+        _ => p.combo(100_000).n300(3).n100(1).n50(0).misses(2),
     }
 }
 
@@ -228,6 +232,30 @@ fn run_setters(i: usize, sc: &Scenario, maps: &Maps, out: &mut Vec<Value>, check
     }
     if d.clone().inspect().into_difficulty() != d {
         bad("inspect_round_trip", "-", "equal Difficulty".into(), format!("{:?}", d.clone().inspect()));
+    }
+    // the inspectable form is an entry point of its own: a hand-built InspectDifficulty with the RAW values (last write per field,
+    // unclamped) must become the Difficulty the setters build (clamped to the documented bounds)
+    {
+        use rosu_pp::any::{InspectDifficulty, ModsDependent};
+        // raw = as written by the last call of the field (the model's record `sc.d` holds the clamped class)
+        let g = |f: &str| sc.calls.iter().rev().find(|c| c.f == f).map(|c| Val { v: c.v.clone(), w: c.w });
+        let attr = |f: &str| g(f).map(|v| ModsDependent { value: attr_of(&v.v), with_mods: v.w });
+        let hand = InspectDifficulty {
+            mods: g("mods").map_or(0u32, |v| mods_of(&v.v)).into(),
+            passed_objects: g("passed").map(|v| passed_of(&v.v)),
+            clock_rate: g("clock").map(|v| clock_of(&v.v)),
+            ar: attr("ar"),
+            cs: attr("cs"),
+            hp: attr("hp"),
+            od: attr("od"),
+            hardrock_offsets: g("hro").map(|v| v.v == "T"),
+            lazer: g("lazer").map(|v| v.v == "T"),
+        };
+        let via_into = hand.clone().into_difficulty();
+        let via_from = Difficulty::from(hand);
+        if via_into != d || via_from != d {
+            bad("hand_built_inspect_into_difficulty", "-", real_inspect(&d), real_inspect(&via_into));
+        }
     }
     // independent setters commute / last write wins: reorder calls stably by field
     let mut sorted = sc.calls.clone();
@@ -290,7 +318,7 @@ fn run_entry(i: usize, sc: &Scenario, maps: &Maps, out: &mut Vec<Value>, checks:
         // the reference is built through Difficulty setters (an independent path), restricted to what the mode's builder accepts
         let attrs_d = diff_from_abs_for(&ev.attrs_with, mode);
         let perf_d = diff_from_abs_for(&ev.perf_with, mode);
-        for k in 0..(if setter_after_gen { 1 } else { 2 }) {
+        for k in 0..(if setter_after_gen { 1 } else { 3 }) {
             *checks += 1;
             let real = guarded(|| {
                 let mut p = score(build_entry(&sc.entry, mode, map, &perf_d), k);
